@@ -50,6 +50,38 @@ def gen_cases(rng, tier):
     return out
 
 
+def obligations():
+    """the specification's normaliser exists twice: Spec/Norm.v (what the theorems of Props/C03exact.v speak about, extracted
+    into the core driver as `norm`) and lib/toml_text.py (what the oracle uses); they must agree on a fixed battery"""
+    import random, common
+    drv = globals().get("DRIVER_BIN")
+    if not drv:
+        return [("normalizer-tie", "model driver not built")]
+    rng = random.Random(20260929)
+    texts = []
+    for _ in range(400):
+        tg = G.TreeGen(rng, small_keys=rng.random() < 0.2)
+        st = tg.statements(tg.tree())
+        texts.append(G.Renderer(rng, plain=rng.random() < 0.05, consistent=rng.random() < 0.7, comment_p=0.4, ws_p=0.4).document(st))
+    q3 = b'"' * 3
+    a3 = b"'" * 3
+    texts += [b"", b"\n", b"# c", b"\xef\xbb\xbf", b"\xef\xbb\xbfa = 1", b"a = 1", b"a = 1\r\n", b"a = " + q3 + b"x\r\ny" + q3 + b"\r\n",
+              b"a = " + a3 + b"x\r\ny" + a3 + b"\r\n", b"a = [\r\n1,\r\n2\r\n]\r\n", b"# only comment\r\n", b"a = 'x' # c\r",
+              b"a = \"\\\"\" # \"\r\n", b"[a]\r\n\r\n[b]"]
+    texts = [t for t in texts if G.utf8_ok(t)]
+    outs = common.run_lines(drv, [common.case_line("norm", [t]) for t in texts])
+    for t, o in zip(texts, outs):
+        want = T.normalize(t)
+        o = (o or "").strip()
+        try:
+            got = b"" if o in ("-", "") else bytes.fromhex(o)
+        except ValueError:
+            got = None
+        if got != want:
+            return [("normalizer-tie", "Spec/Norm.v and lib/toml_text.py normalise %r differently (coq: %r)" % (t[:80], o[:80]))]
+    return []
+
+
 def _field(line, name):
     for part in line.split(" "):
         if part.startswith(name + "="):
